@@ -530,3 +530,85 @@ pub fn h_verify(w: Wt, weight: u64, blockmax: u64) -> Result<(), String> {
 	}
 	Ok(())
 }
+// ---- phase 4: `return` inside `for` / `while` / nested `loop`s, `?` inside a loop, `assert!`, direct recursion (fuel),
+// `Range::contains`, string payload of `Err`
+pub fn t_ret_for(a: u64, n: u64) -> u64 {
+	let mut s: u64 = 0;
+	for i in 0..(n % 20) {
+		if (i * a) % 7 == 3 {
+			return s + 1000;
+		}
+		s += i * a;
+	}
+	s
+}
+pub fn t_ret_loop(a: u64, b: u64) -> Option<u64> {
+	let v = vec![a % 5, b % 5, (a + b) % 5, 1, 4, 2];
+	let mut i: usize = 0;
+	let mut n: u64 = 0;
+	loop {
+		let mut k = i;
+		loop {
+			k = v[k] as usize;
+			if k == i {
+				break;
+			}
+			if v[k] == 3 {
+				return None;
+			}
+			n += 1;
+			if n > 40 {
+				return Some(n);
+			}
+		}
+		i = (i + 1) % 6;
+		n += 2;
+		if i == 0 {
+			break;
+		}
+	}
+	Some(n)
+}
+pub fn t_ret_while(a: u64, b: u64) -> Result<u64, String> {
+	let mut x = a % 1000;
+	let mut steps: u64 = 0;
+	while x > 1 {
+		if x == b % 16 {
+			return Err("hit".to_owned());
+		}
+		if x % 2 == 0 {
+			x /= 2;
+		} else {
+			x = 3 * x + 1;
+		}
+		steps += 1;
+		if steps > 60 {
+			return Ok(steps + x);
+		}
+	}
+	Ok(steps)
+}
+pub fn t_try_loop(a: u64, b: u64) -> Option<u64> {
+	let v = vec![a % 9, b % 9, 7, (a ^ b) % 9];
+	let mut s: u64 = 0;
+	for x in v {
+		let y = x.checked_sub(b % 4)?;
+		s += y;
+	}
+	Some(s)
+}
+pub fn t_assert(a: u64, b: u64) -> u64 {
+	assert!(a % 16 >= b % 8, "a too small: {}", a);
+	a % 16 - b % 8
+}
+pub fn t_rec(a: u64, d: u64) -> u64 {
+	if a < 2 {
+		d
+	} else {
+		t_rec(a / 2, d + a % 3)
+	}
+}
+pub fn t_rangec(a: u64, b: u64, c: u64) -> bool {
+	let r = (a % 100)..(b % 100);
+	r.contains(&(c % 100))
+}
